@@ -2,6 +2,7 @@
 Queue-of-futures order (C05), part C: invariant C and the popped-prefix invariant.
 -/
 import Osmium.Lemmas.PipelineOrderA
+import Osmium.Lemmas.PipelineOrderA2
 
 namespace Osmium.Pipeline.Order
 
